@@ -33,3 +33,52 @@ package util
 //@ ensures implies(isnil(args.Time) && dlt == -1 && rt + 1440 >= 2880, nonnil(result1))
 //@ ensures implies(isnil(args.Time) && dlt == 1, isnil(result1) && klog.off(result0) == rt - 1440)
 //@ ensures implies(isnil(args.Time) && (dlt < -1 || dlt > 1), nonnil(result1))
+
+// ---------------------------------------------------------------------------------------------
+// ApplyFilter (property C13): which records the date flags select. T is today's day number; the shortcut flags are
+// examined in the order this/last week, month, quarter, year and override every other bound; --after/--before override
+// --period, which overrides --since/--until; --tomorrow overrides --yesterday overrides --today overrides --date.
+
+//@ spec fT(now gotime.Time) int = dnow(now)
+//@ spec fy(now gotime.Time) int = gotime_year(now)
+//@ spec fm(now gotime.Time) int = gotime_month(now)
+//@ spec fq(now gotime.Time) int = ediv(gotime_month(now) + 2, 3)
+//@ spec tw(a *FilterArgs) bool = a.ThisWeek || a.ThisWeekAlias
+//@ spec lw(a *FilterArgs) bool = a.LastWeek || a.LastWeekAlias
+//@ spec tm(a *FilterArgs) bool = a.ThisMonth || a.ThisMonthAlias
+//@ spec lm(a *FilterArgs) bool = a.LastMonth || a.LastMonthAlias
+//@ spec tq(a *FilterArgs) bool = a.ThisQuarter || a.ThisQuarterAlias
+//@ spec lq(a *FilterArgs) bool = a.LastQuarter || a.LastQuarterAlias
+//@ spec ty(a *FilterArgs) bool = a.ThisYear || a.ThisYearAlias
+//@ spec ly(a *FilterArgs) bool = a.LastYear || a.LastYearAlias
+//@ spec sc(a *FilterArgs) bool = tw(a) || lw(a) || tm(a) || lm(a) || tq(a) || lq(a) || ty(a) || ly(a)
+// first and last day number of the month / quarter before (y, m) resp. (y, q)
+//@ spec pmLo(y int, m int) int = ite(m == 1, dn(y - 1, 12, 1), dn(y, m - 1, 1))
+//@ spec pmHi(y int, m int) int = ite(m == 1, dn(y - 1, 12, 31), dn(y, m - 1, dim(y, m - 1)))
+//@ spec pqLo(y int, q int) int = ite(q == 1, dn(y - 1, 10, 1), dn(y, 3*q - 5, 1))
+//@ spec pqHi(y int, q int) int = ite(q == 1, dn(y - 1, 12, 31), dn(y, 3*q - 3, dim(y, 3*q - 3)))
+//@ spec scLoN(a *FilterArgs, t int, y int, m int) int = ite(tw(a), t - period.wk(t), ite(lw(a), t - 7 - period.wk(t), ite(tm(a), dn(y, m, 1), ite(lm(a), pmLo(y, m), ite(tq(a), dn(y, 3*ediv(m + 2, 3) - 2, 1), ite(lq(a), pqLo(y, ediv(m + 2, 3)), ite(ty(a), dn(y, 1, 1), dn(y - 1, 1, 1))))))))
+//@ spec scHiN(a *FilterArgs, t int, y int, m int) int = ite(tw(a), t - period.wk(t) + 6, ite(lw(a), t - 1 - period.wk(t), ite(tm(a), dn(y, m, dim(y, m)), ite(lm(a), pmHi(y, m), ite(tq(a), dn(y, 3*ediv(m + 2, 3), dim(y, 3*ediv(m + 2, 3))), ite(lq(a), pqHi(y, ediv(m + 2, 3)), ite(ty(a), dn(y, 12, 31), dn(y - 1, 12, 31))))))))
+// the periods that the shortcut flags ask for must exist (first week/month/quarter/year of year 0000, last week of 9999)
+//@ spec scOk(a *FilterArgs, t int, y int, m int) bool = implies(tw(a), t - period.wk(t) >= 0 && t - period.wk(t) + 6 <= 3652424) && implies(!tw(a) && lw(a), t - 7 - period.wk(t) >= 0) && implies(!tw(a) && !lw(a) && !tm(a) && lm(a), 12*y + m > 1) && implies(!tw(a) && !lw(a) && !tm(a) && !lm(a) && !tq(a) && lq(a), 4*y + ediv(m + 2, 3) > 1) && implies(!tw(a) && !lw(a) && !tm(a) && !lm(a) && !tq(a) && !lq(a) && !ty(a) && ly(a), y >= 1)
+
+// the closure that evaluates the shortcut flags
+//@ func (*FilterArgs).ApplyFilter$1
+//@ requires args != nil && typeis(today, *klog.date) && scOk(args, klog.ddn(today), today.(*klog.date).year, today.(*klog.date).month)
+//@ ensures isnil(result) == !sc(args)
+//@ ensures implies(sc(args), typeis(result, *period.periodData) && klog.ddn(result.(*period.periodData).since) == scLoN(args, klog.ddn(today), today.(*klog.date).year, today.(*klog.date).month) && klog.ddn(result.(*period.periodData).until) == scHiN(args, klog.ddn(today), today.(*klog.date).year, today.(*klog.date).month))
+
+//@ func (*FilterArgs).ApplyFilter
+//@ requires nowOk(now) && len(args.Tags) == 0 && args.EntryType == ""
+//@ requires forall(i, 0, len(rs), typeis(rs[i], *klog.record) && typeis(rs[i].(*klog.record).date, *klog.date))
+//@ requires (isnil(args.Date) || typeis(args.Date, *klog.date)) && (isnil(args.Since) || typeis(args.Since, *klog.date)) && (isnil(args.Until) || typeis(args.Until, *klog.date))
+//@ requires (isnil(args.After) || (typeis(args.After, *klog.date) && klog.ddn(args.After) < 3652424)) && (isnil(args.Before) || (typeis(args.Before, *klog.date) && klog.ddn(args.Before) > 0))
+//@ requires isnil(args.Period) || typeis(args.Period, *period.periodData)
+//@ requires scOk(args, fT(now), fy(now), fm(now))
+//@ let hasAt = args.Tomorrow || args.Yesterday || args.Today || nonnil(args.Date)
+//@ let at = ite(args.Tomorrow, fT(now) + 1, ite(args.Yesterday, fT(now) - 1, ite(args.Today, fT(now), klog.ddn(args.Date))))
+//@ let hasLo = sc(args) || nonnil(args.After) || nonnil(args.Period) || nonnil(args.Since)
+//@ let lo = ite(sc(args), scLoN(args, fT(now), fy(now), fm(now)), ite(nonnil(args.After), klog.ddn(args.After) + 1, ite(nonnil(args.Period), klog.ddn(args.Period.(*period.periodData).since), klog.ddn(args.Since))))
+//@ let hasHi = sc(args) || nonnil(args.Before) || nonnil(args.Period) || nonnil(args.Until)
+//@ let hi = ite(sc(args), scHiN(args, fT(now), fy(now), fm(now)), ite(nonnil(args.Before), klog.ddn(args.Before) - 1, ite(nonnil(args.Period), klog.ddn(args.Period.(*period.periodData).until), klog.ddn(args.Until))))
+//@ ensures service.selected(rs, result, hasAt, at, hasLo, lo, hasHi, hi)
